@@ -40,13 +40,17 @@ theorem C29_denied_unchanged (c : Caller) (s : St) :
     (∀ n, DenSafe s (createOrg c s n)) ∧ (∀ id n, DenSafe s (updateOrg c s id n)) ∧ (∀ id, DenSafe s (deleteOrg c s id)) ∧
     (∀ n id, DenSafe s (createUser c s n id)) ∧ (∀ id n, DenSafe s (updateUser c s id n)) ∧
     (∀ id, DenSafe s (deleteUser c s id)) ∧
-    (∀ a, DenSafe s (createAuth c s a)) ∧ (∀ id act, DenSafe s (updateAuth c s id act)) ∧
+    (∀ a, DenSafe s (createAuth c s a)) ∧ (∀ a, DenSafe s (createAuth2 c s a)) ∧ (∀ id act, DenSafe s (updateAuth c s id act)) ∧
     (∀ id, DenSafe s (deleteAuth c s id)) :=
   ⟨fun _ _ _ => guarded_den (liftT_den s _), fun _ _ => fetchGuard_den (liftT_den s _),
    fun _ => fetchGuard_den (liftT_den s _),
    fun _ => guarded_den (liftT_den s _), fun _ _ => guarded_den (liftT_den s _), fun _ => guarded_den (liftT_den s _),
    fun _ _ => guarded_den (liftT_den s _), fun _ _ => guarded_den (liftT_den s _), fun _ => guarded_den (liftT_den s _),
    fun a => guarded_den (guarded_den (guarded_den (createAuthSvc_den s a))),
+   fun a => guarded_den (guarded_den (guarded_den (by
+     split
+     · intro e h hd; simp at h; subst h; cases hd
+     · exact createAuthSvc_den s a))),
    fun id act => fetchGuard_den (updateAuthSvc_den s id act), fun id => fetchGuard_den (deleteAuthSvc_den s id)⟩
 
 /-- Read wrappers never change anything (they are functions of the state). -/
